@@ -166,6 +166,16 @@ Proof.
   - intros [= <-]. apply spec_push_nonempty.
 Qed.
 
+Lemma spec_push_wf d : wf_bytes d -> Z.of_nat (length d) < max_push -> wf_bytes (spec_push d).
+Proof.
+  unfold max_push, spec_push. intros Hw Hl.
+  destruct (Z.of_nat (length d) <? 76) eqn:E1; [constructor; [lia|exact Hw]|].
+  destruct (Z.of_nat (length d) <=? 255) eqn:E2; [constructor; [lia|constructor; [lia|exact Hw]]|].
+  destruct (Z.of_nat (length d) <=? 65535) eqn:E3.
+  - constructor; [lia|]. apply wf_bytes_app. split; [apply le_bytes_wf|exact Hw].
+  - constructor; [lia|]. apply wf_bytes_app. split; [apply le_bytes_wf|exact Hw].
+Qed.
+
 Lemma to_bytes_cons t r bs :
   to_bytes (t :: r) = Some bs -> exists a b, tok_to_bytes t = Some a /\ to_bytes r = Some b /\ bs = a ++ b.
 Proof.
@@ -224,4 +234,36 @@ Lemma canon_to_bytes ts : Forall wf_tok_dis ts -> to_bytes (map canon_tok ts) = 
 Proof.
   induction 1 as [|t r Ht _ IH]; cbn [map to_bytes]; [reflexivity|].
   now rewrite canon_tok_bytes, IH.
+Qed.
+
+Lemma tok_to_bytes_some t : wf_tok t -> exists bs, tok_to_bytes t = Some bs.
+Proof.
+  intros Hw. rewrite (tok_to_bytes_spec t Hw). destruct t as [name|n|d]; cbn [to_stok spec_tok]; eauto.
+  cbn [wf_tok] in Hw. destruct (op_lookup name) as [v|] eqn:E; [|congruence].
+  destruct (op_lookup_facts name v E) as (b & -> & F). rewrite (of_consensus _ _ F). cbn. eauto.
+Qed.
+
+Lemma to_bytes_some ts : Forall wf_tok ts -> exists bs, to_bytes ts = Some bs.
+Proof.
+  induction 1 as [|t r Ht _ [b IH]]; cbn [to_bytes]; [eauto|].
+  destruct (tok_to_bytes_some t Ht) as [a ->]. rewrite IH. eauto.
+Qed.
+
+Lemma to_bytes_wf ts bs : Forall wf_tok ts -> to_bytes ts = Some bs -> wf_bytes bs.
+Proof.
+  intros H. revert bs. induction H as [|t r Ht _ IH]; intros bs; cbn [to_bytes].
+  - intros [= <-]. constructor.
+  - destruct (tok_to_bytes t) as [a|] eqn:Ea; [|discriminate].
+    destruct (to_bytes r) as [b|] eqn:Eb; [|discriminate]. intros [= <-].
+    apply wf_bytes_app. split; [|now apply IH].
+    rewrite (tok_to_bytes_spec t Ht) in Ea. destruct t as [name|n|d]; cbn [to_stok spec_tok wf_tok] in *.
+    + destruct (spec_assoc name consensus_opcodes) as [x|] eqn:Ex; [|discriminate]. injection Ea as <-.
+      destruct (op_lookup name) as [v|] eqn:E; [|congruence].
+      destruct (op_lookup_facts name v E) as (b0 & -> & F). rewrite (of_consensus _ _ F) in Ex. injection Ex as <-.
+      constructor; [apply (of_byte _ _ F)|constructor].
+    + injection Ea as <-. destruct Ht as [H0 Hl]. unfold spec_int.
+      destruct (n =? 0); [constructor; [lia|constructor]|].
+      destruct ((1 <=? n) && (n <=? 16)) eqn:E; [constructor; [lia|constructor]|].
+      apply spec_push_wf; [now apply spec_scriptnum_wf|exact Hl].
+    + injection Ea as <-. destruct Ht as [Hw Hl]. now apply spec_push_wf.
 Qed.
